@@ -173,6 +173,18 @@ def _eval_pair(case):
                         bad('negative-representable', f, f'to_json of a-b lacks {f}={want}: {js}')
         except Exception as e:
             bad('negative-printable', name, f'{type(e).__name__}: {e}')
+    # ... and printed: every field that is non-zero in the result appears in the text with its value (a negative
+    # free capacity in a field the total does not define is exactly what a reader of the printout needs to see)
+    for name, r, vals in (('a-b', d, {f: A[f] - B[f] for f in FIELDS}), ('free', free, {f: A[f] - B[f] for f in FIELDS})):
+        try:
+            text = str(r)
+        except Exception:
+            continue
+        for f in FIELDS:
+            if vals[f] != 0:
+                shown = f'{f}: {vals[f]:,}'
+                if shown + ' ' not in text and shown + '/' not in text and shown + ',' not in text and shown + '}' not in text:
+                    bad('negative-printable/field-missing', f'{name}.{f}', f'str() of {name} = {text!r} does not show {f}={vals[f]}')
     nontriv = (a_v, b_v) if (any(a_v) and any(b_v)) else None
     out = ('lt' if neg_ba == [] else '') + ('gt' if neg_ab == [] else '') + ('neg' if neg_ab else '')
     return {'v': v, 'nt': nontriv, 'out': out or 'incomparable'}
